@@ -94,6 +94,7 @@ func runRegList() {
 			}()
 			rl := veregister.NewRegisterList()
 			var lens []string
+			var mids []string
 			if ops != "" {
 				for _, op := range strings.Split(ops, ";") {
 					kv := strings.SplitN(op, ":", 2)
@@ -126,6 +127,14 @@ func runRegList() {
 							rs = append(rs, alpha.FieldListRegisters[i])
 						}
 						rl.AppendFieldListRegisterStruct(rs...)
+					case "g":
+						// observe the combined view in the middle of the history
+						g := rl.GetRegisters()
+						ps := make([]string, len(g))
+						for i, r := range g {
+							ps[i] = regFp(r)
+						}
+						mids = append(mids, strings.Join(ps, ","))
 					case "fp":
 						rl.FilterRegister(mkPred(arg))
 					case "fn":
@@ -152,11 +161,16 @@ func runRegList() {
 			if len(lens) == 0 {
 				lens = []string{"-"}
 			}
-			return fmt.Sprintf("%s len=%s N=%s T=%s E=%s F=%s G=%s", id, strings.Join(lens, ","),
+			mid := "-"
+			if len(mids) > 0 {
+				mid = strings.Join(mids, "|")
+			}
+			return fmt.Sprintf("%s len=%s N=%s T=%s E=%s F=%s M=%s G=%s", id, strings.Join(lens, ","),
 				join(len(rl.NumberRegisters), func(i int) veregister.Register { return rl.NumberRegisters[i] }),
 				join(len(rl.TextRegisters), func(i int) veregister.Register { return rl.TextRegisters[i] }),
 				join(len(rl.EnumRegisters), func(i int) veregister.Register { return rl.EnumRegisters[i] }),
 				join(len(rl.FieldListRegisters), func(i int) veregister.Register { return rl.FieldListRegisters[i] }),
+				mid,
 				join(len(g), func(i int) veregister.Register { return g[i] }))
 		}()
 		fmt.Fprintln(out, res)
